@@ -116,7 +116,8 @@ func (*PHQ) isAB()    {}
 func (*PHQ) Primary() {}
 
 type ProviderKind struct {
-	NoName  bool // the type has no Naming method: at most one (unnamed) instance
+	NoName  bool   // the type has no Naming method: at most one (unnamed) instance
+	DefName string // default registration name when it is not "verif/harness/zoo/<Name>" (kinds sharing it share the one unnamed slot)
 	Name    string
 	HasQual bool
 	HasComp bool // Comp() string
@@ -267,5 +268,43 @@ func init() {
 	ExtraProviderKinds = append(ExtraProviderKinds,
 		ProviderKind{Name: "PNP", HasQual: true, New: func(b *Beh) any { c := &PNP{QCore: QCore{PCore{b}}}; b.Self = c; return c }}, // 23
 		ProviderKind{Name: "PLK", HasQual: true, New: func(b *Beh) any { c := &PLK{QCore{PCore{b}}}; b.Self = c; return c }},        // 24
+	)
+}
+
+// PSP / PSN: two DIFFERENT component types that PRINT the same - function-local types of one name here; in an
+// application billing/v1.Store and shipping/v1.Store, both "*v1.Store". PSP is Primary, PSN is not. (Their default
+// registration name is the same too, so at most one of all their instances is unnamed.)
+type twinCore struct{ QCore }
+
+func (*twinCore) isA()  {}
+func (*twinCore) isAB() {}
+
+type primaryMark struct{}
+
+func (*primaryMark) Primary() {}
+
+func newTwinPrimary(b *Beh) any {
+	type twin struct {
+		twinCore
+		primaryMark
+	}
+	c := &twin{twinCore: twinCore{QCore{PCore{b}}}}
+	b.Self = c
+	return c
+}
+
+func newTwinPlain(b *Beh) any {
+	type twin struct {
+		twinCore
+	}
+	c := &twin{twinCore: twinCore{QCore{PCore{b}}}}
+	b.Self = c
+	return c
+}
+
+func init() {
+	ExtraProviderKinds = append(ExtraProviderKinds,
+		ProviderKind{Name: "PSP", DefName: "verif/harness/zoo/twin", HasQual: true, New: newTwinPrimary}, // 25
+		ProviderKind{Name: "PSN", DefName: "verif/harness/zoo/twin", HasQual: true, New: newTwinPlain},   // 26
 	)
 }
